@@ -32,7 +32,7 @@ def fld(fields, key):
 
 # which known-finding key a mutation class belongs to (see known_findings.json / REPORT.md)
 MUT_KEY = {
-    "st-permute": "c09-struct-field-order", "st-duplicate": "c09-struct-field-order",
+    "st-permute": "c09-struct-field-order", "st-duplicate": "c09-struct-field-order", "st-repeat": "c09-struct-field-order",
     "st-drop": "c09-struct-field-order", "st-extra": "c09-struct-field-order",
     "st-field-rename": "c09-struct-field-order",
     "en-arity-short": "c09-enum-arity", "en-arity-long": "c09-enum-arity",
@@ -45,6 +45,8 @@ CORPUS = [
     # DESIGN.md §6-16..19, 29 and the findings of this check (all repaired by fixes 1-9)
     ('(names "S" "a" "b") (defs (struct 0 (1 u8) (2 u8))) (ty (st 0)) (lit (st 0 (2 (u 1 u8)) (1 (u 2 u8))))', "st-permute"),
     ('(names "S" "a" "b") (defs (struct 0 (1 u8) (2 u8))) (ty (st 0)) (lit (st 0 (1 (u 1 u8)) (1 (u 2 u8))))', "st-duplicate"),
+    ('(names "S" "a" "b") (defs (struct 0 (1 u8) (2 u8))) (ty (st 0)) (lit (st 0 (1 (u 1 u8)) (2 (u 2 u8)) (1 (u 7 u8))))', "st-repeat"),
+    ('(names "S" "a" "b") (defs (struct 0 (1 u8) (2 u8))) (ty (st 0)) (lit (st 0 (1 (u 1 u16)) (2 (u 2 u8)) (1 (u 7 u8))))', "st-repeat"),
     ('(names "A" "B" "E") (defs (enum 2 (unit 0) (tuple 1 u8 u16))) (ty (en 2)) (lit (en 2 1 ((u 1 u8))))', "en-arity-short"),
     ('(names "A" "B" "E") (defs (enum 2 (unit 0) (tuple 1 u8 u16))) (ty (en 2)) (lit (en 2 1 ((u 1 u8) (u 2 u16) (u 3 u8))))', "en-arity-long"),
     ('(names) (defs) (ty u8) (lit (u 300 u8))', "u-out-of-range"),
